@@ -5,7 +5,7 @@ from tools.vlib import *
 from tools import vlib
 
 PID = "C25"
-READY = False
+READY = True
 MANIFEST = {
     "level_text": "Lean 4 theorems about an executable model of RelayServer (sessions, registered_, read/write buffers, partner "
                   "pointers; events accept / one recv() chunk / EOF / error / partial write), for every event sequence over any number of "
